@@ -6,6 +6,7 @@ import (
 	"io"
 	"math/big"
 	"strconv"
+	"testing/iotest"
 
 	"github.com/keybase/saltpack/encoding/basex"
 )
@@ -345,8 +346,8 @@ func genC10(h *H) {
 				h.tag("mut:truncate")
 			case 2: // insert skip-ish character
 				p := h.rng.Intn(len(s) + 1)
-				ins := []byte{' ', '\n', '>', '\t'}[h.rng.Intn(4)]
-				s = append(s[:p], append([]byte{ins}, s[p:]...)...)
+				ins := [][]byte{{' '}, {'\n'}, {'>'}, {'\t'}, {'\r', '\n'}, {' ', ' ', '\n'}, {'>', ' '}}[h.rng.Intn(7)]
+				s = append(s[:p], append(append([]byte{}, ins...), s[p:]...)...)
 				h.tag("mut:skipchar")
 			case 3: // insert foreign character
 				p := h.rng.Intn(len(s) + 1)
@@ -375,7 +376,16 @@ func bxStreamAgrees(e *encInfo, s, out []byte, oneErr error) (fs []Failure) {
 	if len(s) > 100000 {
 		sizes = []int{4096, 200000, 262144, 400000, 0}
 	}
-	for _, sz := range sizes {
+	for vi, sz := range append(append([]int{}, sizes...), sizes...) {
+		// second pass: the same read sizes over an underlying reader that fragments its deliveries
+		// (single bytes / small uneven segments, so that some deliveries are skip characters only)
+		variant := 0
+		if vi >= len(sizes) {
+			variant = 1 + vi%2
+			if len(s) > 100000 {
+				continue
+			}
+		}
 		var got []byte
 		var err error
 		func() {
@@ -384,7 +394,14 @@ func bxStreamAgrees(e *encInfo, s, out []byte, oneErr error) (fs []Failure) {
 					err = fmt.Errorf("PANIC: %v", r)
 				}
 			}()
-			d := basex.NewDecoder(e.enc, bytes.NewReader(s))
+			var src io.Reader = bytes.NewReader(s)
+			switch variant {
+			case 1:
+				src = iotest.OneByteReader(bytes.NewReader(s))
+			case 2:
+				src = &segReader{data: s, sizes: []int{1, 2, 1, 3, 7, 1, 1, 64}}
+			}
+			d := basex.NewDecoder(e.enc, src)
 			if sz == 0 {
 				got, err = io.ReadAll(d)
 				return
@@ -414,4 +431,28 @@ func bxStreamAgrees(e *encInfo, s, out []byte, oneErr error) (fs []Failure) {
 		}
 	}
 	return
+}
+
+// segReader delivers its data in segments of the given sizes (cyclically)
+type segReader struct {
+	data  []byte
+	sizes []int
+	i     int
+}
+
+func (r *segReader) Read(p []byte) (int, error) {
+	if len(r.data) == 0 {
+		return 0, io.EOF
+	}
+	n := r.sizes[r.i%len(r.sizes)]
+	r.i++
+	if n > len(p) {
+		n = len(p)
+	}
+	if n > len(r.data) {
+		n = len(r.data)
+	}
+	copy(p, r.data[:n])
+	r.data = r.data[n:]
+	return n, nil
 }
